@@ -4,6 +4,7 @@ from __future__ import annotations
 
 import asyncio
 import gc
+import itertools
 import json
 import os
 import random
@@ -130,6 +131,42 @@ def model_view(table, c):
     if items is None:
         return f"{av}|?"
     return f"{av}|" + (",".join(map(str, items)) or "-")
+
+
+EXH_ALPHABET = [("get",), ("upd", "scalar"), ("upd", "json"), ("upd", "both"), ("upd", "other"), ("mut", "top"), ("mut", "nested")]
+EXH_TABLES = ["port", "step", "deployment", "filter", "target"]         # cached and updatable
+
+
+def exhaustive_histories(maxlen: int, per_history: int, shift: int):
+    """EVERY sequence of at most `maxlen` operations over EXH_ALPHABET (a mutation needs an earlier read) on a fresh row, closed by a
+    read; `per_history` sequences share a database (each on its own row), the table rotates per sequence"""
+    seqs = [q for n in range(1, maxlen + 1) for q in itertools.product(range(len(EXH_ALPHABET)), repeat=n)
+            if all(EXH_ALPHABET[x][0] != "mut" or any(EXH_ALPHABET[y][0] == "get" for y in q[:i]) for i, x in enumerate(q))]
+    for b in range(0, len(seqs), per_history):
+        ops = [("add", "workflow", 1, [1]), ("add", "deployment", 2, [2]), ("add", "port", 3, [3]), ("add", "step", 4, [4])]
+        counts = {"workflow": 1, "deployment": 1, "port": 1, "step": 1, "filter": 0, "target": 0}
+        nout, v = 0, 100
+        for k, q in enumerate(seqs[b: b + per_history]):
+            t = EXH_TABLES[(b + k + shift) % len(EXH_TABLES)]
+            counts[t] += 1
+            rid = counts[t]
+            ops.append(("add", t, 10 + k, [k, k + 1]))
+            last = None
+            for x in q:
+                a = EXH_ALPHABET[x]
+                v += 1
+                if a[0] == "get":
+                    ops.append(("get", t, rid))
+                    last, nout = nout, nout + 1
+                elif a[0] == "upd":
+                    ops.append(("upd", t, rid, v, [v, v + 1], a[1]))
+                else:
+                    ops.append(("mut", a[1], last, 0, 200 + v % 100))
+            ops.append(("get", t, rid))
+            nout += 1
+        h = History(random.Random(0), 0)
+        h.ops = ops + [("sweep",)]
+        yield h
 
 
 class History:
@@ -500,6 +537,16 @@ class C09(Property):
                 break                      # the search is for one concrete failing history
             h = History(rng, rng.randint(12, 45))
             self._check_history(ctx, h, 100 + i, lines, expect, meta)
+        # ---- thorough tier: every short operation sequence on one row (bounded-exhaustive) ----
+        if ctx.tier == "thorough" and ctx.mode == "check":
+            for i, hh in enumerate(exhaustive_histories(4, 30, ctx.seed)):
+                if ctx.out_of_time():
+                    ctx.extra["exhaustive_incomplete"] = True
+                    break
+                self._check_history(ctx, hh, 10000 + i, lines, expect, meta)
+                ctx.count("exhaustive-batches")
+            else:
+                ctx.extra["exhaustive"] = "all operation sequences of length <= 4 over get/upd(scalar,json,both,other)/mut(top,nested) on a fresh row"
         # ---- overlapping calls (outside the property's quantifier; reported under its own narrow key) ----
         for table in ("deployment", "filter", "port", "step", "target"):
             for order, shuffle, seed in (("get-first", False, 0), ("update-first", False, 0), ("get-first", True, 1), ("get-first", True, 2)):
